@@ -651,6 +651,17 @@ def check_regular(ctx, fname, assembly_type, kparams):
     expect_adj = opaque_atom("¬adj", [Et, Er])
     ok_adj = len(adj) == 1 and _single_atom(expect_adj) == adj[0]
     out.append(("adjacency-guard", ok_adj, "accumulation is guarded by %s, expected skip of adjacent (test element, trial element) pairs" % adj))
+    # the adjacency predicate itself: elements_adjacent(test_grid_data.elements, test element, trial element) under grids_identical
+    tests = hooks.adjacency_tests
+    def _is_trial_elem(v):
+        ix = destructure(v, "trial_elements", 1)
+        nm = _single_atom(ix[0]) if ix else None
+        return nm is not None and _range_is(nm, opaque_atom("#trial_elements"))
+
+    ok_t = len(tests) == 1 and isinstance(tests[0]["table"], Arr) and tests[0]["table"].desc == "test_grid_data.elements" and (
+        (tests[0]["e1"].eq(Et) and _is_trial_elem(tests[0]["e2"])) or (_is_trial_elem(tests[0]["e1"]) and tests[0]["e2"].eq(Et)))
+    out.append(("adjacency-test", ok_t, "adjacency is tested with %s" % ([(t["table"].desc if isinstance(t["table"], Arr) else "?", symex.idx_str(t["e1"]), symex.idx_str(t["e2"])) for t in tests],)
+                + ", expected elements_adjacent(test_grid_data.elements, test element, trial element) once per pair"))
     ok_any = False
     for pv, qv in ((sig[0], sig[1]), (sig[1], sig[0])):
         p, q = V.atom(sigma_var(pv)), V.atom(sigma_var(qv))
